@@ -418,8 +418,9 @@ def run(repo: Repo, rep):
     r2_setters(repo, rep)
     r3_necessary_variables(repo, rep)
     r4_call_pure(repo, rep)
-    from .c13 import r5_copy_on_partial  # partial evaluation of shape functions must not touch the original wrapper
+    from .c13 import r5_copy_on_partial, r7_set_default  # partial evaluation of shape functions must not touch the original wrapper and must bind what it is given
     r5_copy_on_partial(repo, rep)
+    r7_set_default(repo, rep)
 
 
 _U = "src/torchphysics/problem/domains/domainoperations/union.py"
